@@ -22,6 +22,23 @@ STAGE_NOTE = ("Trusted: Coq kernel (no axioms; MD5 is a Section variable, collis
               "looks at the whole log), cleanCache ageing, exporter/dispatcher, power-loss durability.")
 STAGE_SUITE = dict(name="stage", pkg="./stage/", test="TestVerifStage", min_lines=200, timeout_quick=900)
 
+E2E_RULE = ("e2e: the real client.Broker with the real store.Local, cache.JSON, queue.Tagged, payload.Bin and sent-log against a real stage.Stage + receive log "
+            "through an in-process transport that injects faults per request (206 at part i, cut before/after part i, lost answer, receiver unavailable, "
+            "corrupted part) and per poll (error, not-found); seeded scenarios of 1..5 files (1..150 bytes, groups, nested names), 1..3 threads, payload 20..100 "
+            "bytes, chunk <= payload, delete on/off; profiles: plain, faults, stop (graceful/now at a random interface-event index incl. right after start), "
+            "crash (sender frozen at a random interface-event index incl. its cache writes, new Broker on the persisted cache), reuse (a name used again after "
+            "release), mutate (file rewritten while queued), eligible (young/hidden/ignored/lock/not-included files beside eligible ones); facts are computed "
+            "from the recorded interface events; non-trivial = at least two requests; distinct = distinct scenario lines")
+E2E_NOTE = ("Trusted: Coq kernel (no axioms), harness (the in-process transport stands in for http.Client/http.Server; wrappers around Store and the sent-log "
+            "record events). The theorems are about decision functions of the sender model (poll handling, restart plan, scan predicate, send loop); the "
+            "goroutine pipeline, channels and timers are NOT modelled: they are explored by the scenario runs and judged by oracles on facts (partial).")
+
+def e2e_suite(profiles, oracles, n=None):
+    env = {"VERIF_E2E_PROFILES": profiles}
+    d = dict(name="e2e", pkg="./client/", test="TestVerifE2E", min_lines=8, timeout_quick=900, oracles=oracles, diffs=[],
+             env_quick=dict(env, VERIF_E2E_N=n or 10), env_thorough=dict(env, VERIF_E2E_N=(n or 10) * 10))
+    return d
+
 PROPS = {
     "C09": dict(
         coq="Properties/C09.v",
@@ -217,5 +234,70 @@ PROPS = {
                     "receiver's side (C09: Received / 206 count). Several sender threads: each runs this loop on its own payload (no shared state but the channels)."),
         technique="Coq proof (permutation invariant of the send loop over adversarial event lists) + exhaustive/seeded differential testing of the real loop",
         assumptions=["part identities within a payload are distinct (one part per chunk)", "ErrorBackoff sleeping is not modelled"],
+    ),
+    "C02": dict(
+        coq="Properties/C02.v",
+        suites=[e2e_suite("plain,faults,reuse,mutate,crash", ["deleted_without_validated_copy", "source_gone_receiver_lacks_it"]),
+                dict(STAGE_SUITE, oracles=["positive_status_without_copy"], diffs=["status"])],
+        rule=E2E_RULE + " | " + STAGE_RULE,
+        level_text=("Proof (decision level) + trace oracles: the sender releases a file only on a positive poll answer, in the poll loop and at restart; the "
+                    "receiver answers positively only for validated / finalized / logged entries and negatively for failed, received, unknown ones. That every "
+                    "Store.Remove happens while the receiver durably holds a validated copy with the SAME content hash is checked at the instant of each "
+                    "deletion in end-to-end runs with faults, restarts, re-used names and files rewritten while queued (after fix 2749a0b)."),
+        level_note=E2E_NOTE + " Known limit: the poll is keyed by name and start time only, so a recovery poll can be answered on the strength of an older version of the name (documented finding C02-F2, not reproduced by the generated scenarios).",
+        technique="Coq proof (release decision theorems, receiver status theorem) + end-to-end trace oracles at every deletion",
+        assumptions=["check-then-delete of a source file is not atomic (a file replaced in the microseconds between the check and the unlink is out of scope)"],
+    ),
+    "C07": dict(
+        coq="Properties/C07.v",
+        suites=[e2e_suite("crash", ["resent_bytes_receiver_reported_held", "not_delivered_after_sender_restart", "deleted_without_validated_copy", "source_gone_receiver_lacks_it"], n=24),
+                dict(name="chunk", pkg="./client/", test="TestVerifChunk", min_lines=1000, oracles=["chunks_not_tiling_missing"], diffs=["left", "left-kind", "chunks"])],
+        rule=E2E_RULE,
+        level_text=("Proof (plan level) + crash enumeration: the restart plan re-sends ranges only for an unconfirmed, unchanged, partly received file and "
+                    "exactly the complement of what the receiver lists (missing_complement); an unconfirmed file is never skipped or marked done; nothing is "
+                    "finished at restart without a positive answer. Sender crashes are injected at random interface-event indexes (all wrappers and cache "
+                    "writes frozen), a new Broker runs on the persisted cache, and the run must deliver everything without re-sending a byte the receiver "
+                    "listed as held and without an unconfirmed deletion."),
+        level_note=E2E_NOTE,
+        technique="Coq proof (restart-plan decision theorems + complement theorem) + sender-crash injection with trace oracles",
+        assumptions=["crash = all interface calls and cache writes of the old instance stop; the old goroutines are abandoned"],
+    ),
+    "C17": dict(
+        coq="Properties/C17.v",
+        suites=[e2e_suite("eligible,reuse,mutate,plain", ["ineligible_file_sent_or_deleted", "delivered_mixture_of_versions", "not_delivered_within_bound", "source_gone_receiver_lacks_it"])],
+        rule=E2E_RULE,
+        level_text=("Proof (predicate level) + end-to-end runs: a scan returns a file iff all eligibility conditions hold and it is new or changed; an unchanged "
+                    "file is never re-queued. Real store.Local scans of generated trees (young, hidden, ignored, lock, not-included files), re-used names and files "
+                    "rewritten while queued: ineligible files are never transmitted or deleted, every eligible (last) version is delivered, and a delivered "
+                    "file is never a mixture of versions."),
+        level_note=E2E_NOTE + " Regexp matching and symlink resolution are library / OS behaviour (inputs of the predicate); the dangling-symlink scan abort found while reading the code is documented in DESIGN (not generated).",
+        technique="Coq proof (scan predicate iff-theorem) + end-to-end runs on generated directory trees",
+        assumptions=["pattern matching verdicts are inputs of the model"],
+    ),
+    "C03": dict(
+        coq="Properties/C03.v",
+        suites=[e2e_suite("plain,faults,eligible", ["not_delivered_within_bound", "pipeline_never_drains_after_vanished_file", "staging_area_not_empty_at_the_end"], n=14),
+                e2e_suite("mutate,vanish", ["not_delivered_within_bound", "not_confirmed_after_rewrite_in_flight", "pipeline_never_drains_after_vanished_file"], n=8)],
+        rule=E2E_RULE,
+        level_text=("Partial. Proof: through any failure sequence the send loop loses no part and drains completely once a request succeeds; negative or missing "
+                    "poll answers always lead to another attempt. Exploration: fault scripts (all request-failure kinds, corruption, poll failures) followed by "
+                    "a failure-free period must end with every eligible file delivered, confirmed, released, the staging area empty and the sender stopped, "
+                    "within a wall-clock bound. Real scheduling, channels and timers are explored, not proved."),
+        level_note=E2E_NOTE,
+        technique="Coq proof (send-loop drain + retry decision) + bounded-time end-to-end liveness runs after fault scripts",
+        assumptions=["the receiver's periodic cleaner runs (compressed to 1.5 s in the harness): it is what breaks predecessor cycles", "bound: 12 s per phase"],
+    ),
+    "C16": dict(
+        coq="Properties/C16.v",
+        suites=[e2e_suite("stop", ["stop_now_did_not_terminate", "stop_now_not_prompt", "graceful_stop_did_not_terminate", "graceful_stop_left_work_undone"], n=24),
+                e2e_suite("plain,faults,vanish", ["pipeline_never_drains_after_vanished_file"], n=8)],
+        rule=E2E_RULE,
+        level_text=("Partial. Proof: every poll verdict resolves the file and only confirmed files are recorded done. Exploration: both kinds of stop injected at "
+                    "random interface-event indexes (incl. immediately after start = one-shot run), with and without request failures: the sender must exit "
+                    "(now: within 4 s; graceful: after delivering and confirming everything found). The shutdown order of the goroutine pipeline is explored, "
+                    "not proved."),
+        level_note=E2E_NOTE,
+        technique="Coq proof (verdict resolution) + stop injection at interface-event indexes with termination oracles",
+        assumptions=["bounds: 4 s for an immediate stop, 12 s for a graceful one"],
     ),
 }
